@@ -14,8 +14,10 @@ DOC_DEC = ["uiface", "ubytes", "dec", "uraw", "unode", "ustruct", "uraws", "umap
 STRICT_STRINGS = {"uifstd"}
 # prefix APIs exposing the position pair (ret, p)
 POS_APIS = ["skip", "va", "vs", "sa", "ss"]
+# whole-document APIs exposing the captured text (since fix 5faba38 NewRaw rejects bytes after the value)
+NEWRAW_APIS = ["newraw", "newrawc"]
 # prefix APIs exposing the captured text
-RAW_APIS = ["newraw", "newrawc", "get", "getfs"]
+RAW_APIS = ["get", "getfs"]
 WRAPPED = {"getk": "wk", "geti": "wi"}
 
 
@@ -122,6 +124,11 @@ def compare_case(cid, kind, doc, impl, model, limit=4096):
 
     for api in DOC_BOOL_MODEL:
         doc_api(api, impl[api] == "1")
+    for api in NEWRAW_APIS:
+        f = impl[api].split(":")
+        doc_api(api, f[0] == "ok")
+        if f[0] == "ok" and f[3] != "1" and not unt32 and not short:
+            add("violation", "NewRaw captured a text that is not one structurally valid value", api, impl[api])
     for api in DOC_DEC:
         # ok = accepted; syn = rejected as malformed; mis / val (type mismatch, number out of range) = no verdict on syntax
         doc_api(api, impl[api] == "ok", impl[api] in ("syn", "oth"))
@@ -145,8 +152,7 @@ def compare_case(cid, kind, doc, impl, model, limit=4096):
             i = lstrip_ws(doc)
             cand = doc[i:i + raw_len]
             if len(cand) == raw_len and zlib.crc32(cand) == raw_crc and doc[i + raw_len:].strip(WS) != b"":
-                fid = "C02-newraw-trailing-bytes" if api.startswith("newraw") else "C02-get-trailing-bytes"
-                add(fid, "value followed by non-space bytes accepted", api, impl[api])
+                add("C02-get-trailing-bytes", "value followed by non-space bytes accepted", api, impl[api])
             else:
                 add("violation", "malformed document accepted and the captured text is not its first value", api, impl[api])
 
@@ -192,6 +198,16 @@ def compare_case(cid, kind, doc, impl, model, limit=4096):
                     good = f[0] == "err"
                 if not good:
                     add("tie", "skip_one behind NewRaw/Get: model says %s" % m_vo, api, impl[api])
+            # NewRaw = skip_one + skipBlank to the end: accept set of Valid, captured text = span of skip_one
+            for api in NEWRAW_APIS:
+                f = impl[api].split(":")
+                if m_valid == "1" and mv[0] == "ok":
+                    seg = doc[int(mv[1]):int(mv[2])]
+                    good = f[0] == "ok" and int(f[1]) == len(seg) and int(f[2], 16) == zlib.crc32(seg)
+                else:
+                    good = f[0] == "err"
+                if not good:
+                    add("tie", "NewRaw = skip_one + trailing blanks only: model says valid=%s vo=%s" % (m_valid, m_vo), api, impl[api])
             # RawMessage / Node capture = skip_one + CheckTrailings: same accept set as Valid
             for api in ("uraw", "unode"):
                 acc = impl[api] == "ok"
